@@ -75,6 +75,16 @@ def src_fan_out(pout="FIRST_AVAILABLE", blocking=True, iat=(2, 2, 2, 2, 2, 2), c
             "edges": [_e("buffer", 0, 1, cap=caps[0], delay=delays[0]), _e("buffer", 0, 2, cap=caps[1], delay=delays[1])]}
 
 
+def src_two_lines(spout="FIRST_AVAILABLE", sb=True, iat=(1,) * 30, pds=((2,), (3,)), pins=("FIRST_AVAILABLE", 0), caps=(1, 1), T=160):
+    """source -> two capacity-1 buffers -> two machines with different delays -> sinks: the source is blocked on both
+    buffers and both are freed within one instant, now and then the higher one a few kernel steps before the lower one"""
+    nodes = [_n("source", blocking=sb, iat=list(iat), policy_out=spout),
+             _n("machine", pd=list(pds[0]), policy_in=pins[0], policy_out=0), _n("machine", pd=list(pds[1]), policy_in=pins[1], policy_out=0),
+             _n("sink"), _n("sink")]
+    edges = [_e("buffer", 0, 1, cap=caps[0]), _e("buffer", 0, 2, cap=caps[1]), _e("buffer", 1, 3, cap=50), _e("buffer", 2, 4, cap=50)]
+    return {"Q": Q, "T": T, "family": "source-two-lines", "expect": "valid", "drains": False, "nodes": nodes, "edges": edges}
+
+
 def comb_split(recipe=(1, 2), piat=(8, 8), iiat=(2, 2, 2, 2, 2), cpd=(4,), spd=(2,), cb=True, spb=True, T=200,
                spout="FIRST_AVAILABLE", two_ing=False, caps=(2, 4, 2, 3), iiat2=None, out_delay=0, out2=None):
     nodes = [_n("source", blocking=True, iat=list(piat), kind="pallet"), _n("source", blocking=True, iat=list(iiat))]
@@ -296,6 +306,11 @@ def families(tier):
         C.append(fleet_mid(pout=pout, pin2=pin2, iat1=(4,) * 12, iat2=(4,) * 12, pd=(2,), pd2=(4,), fcap=3, fdelay=8, transit=1, T=200))
         C.append(fleet_mid(pout=pout, pin2=pin2, iat1=(4,) * 12, iat2=(4,) * 12, pd=(2,), pd2=(4,), fcap=2, fdelay=12, transit=2, T=200))
         C.append(fleet_mid(pout=pout, pin2=pin2, wc=3, iat1=(1,) * 10, iat2=(1,) * 10, pd=(3,), fcap=4, fdelay=12, transit=2, pd2=(2,)))
+    for spout, pins, pds in itertools.product(["FIRST_AVAILABLE", "ROUND_ROBIN"], [("FIRST_AVAILABLE", 0), (0, "FIRST_AVAILABLE"), (0, 0), ("ROUND_ROBIN", "FIRST_AVAILABLE")],
+                                              [((8,), (12,)), ((12,), (8,)), ((4,), (4,))]):
+        C.append(src_two_lines(spout=spout, pins=pins, pds=pds, iat=(4,) * 30))
+    C.append(src_two_lines(iat=(0,) * 12, pds=((8,), (12,)), T=120))
+    C.append(src_two_lines(sb=False, iat=(1,) * 40, pds=((8,), (12,)), T=120))
     for cb, pout in itertools.product([False, True], ["FIRST_AVAILABLE", "ROUND_ROBIN", 1, 0]):
         C.append(comb_fanout(cb=cb, pout=pout))
     C.append(comb_fanout(cb=False, pout="FIRST_AVAILABLE", caps=(2, 3, 1, 1), mpd=(7,)))        # both out-edges congested at times
